@@ -372,3 +372,7 @@ def run(chk, facts, tier, only=None):
         import c03
         chk.include(c03, "C03.R1", "C10.R7", facts)     # typed encoding writes the spec's opcodes ...
         chk.include(c03, "C03.R2", "C10.R8", facts)     # ... and type-table references the reader reads back as the same index
+        import c08
+        import c16
+        chk.include(c08, "C08.R3", "C10.R9", facts)     # reference / number values cross from the decoder to the value visitor in tagged buffers both sides agree on
+        chk.include(c16, "C16.R3", "C10.R10", facts)    # every principal / service / func id that encodes (0..29 bytes) also decodes: one length limit
